@@ -169,7 +169,11 @@ static int run_random(uint64_t seed, long n) {
     eo.SetSpeed(speed, speed);
     const bool builtin = !r.coin(1, 5);
     if (!builtin) eo.SetGlobalBool("use_built_in_attribute_compression", false);    // values stored with the smallest sufficient byte width instead of entropy coded
-    for (auto &tr : tracks) if (tr.q > 0 && tr.id >= 0 && !tr.deleted) eo.SetAttributeInt(anim.GetAttributeIdByUniqueId(tr.id), "quantization_bits", tr.q);
+    // per-track options in ascending or (odd cases) descending track order: the order of the calls is the caller's business
+    for (size_t tk = 0; tk < tracks.size(); ++tk) {
+      auto &tr = tracks[(i % 2) ? tracks.size() - 1 - tk : tk];
+      if (tr.q > 0 && tr.id >= 0 && !tr.deleted) eo.SetAttributeInt(anim.GetAttributeIdByUniqueId(tr.id), "quantization_bits", tr.q);
+    }
     EncoderBuffer eb;
     KeyframeAnimationEncoder enc;
     const Status st = enc.EncodeKeyframeAnimation(anim, eo, &eb);
